@@ -357,7 +357,8 @@ class Ctx:
             self._solver = z3.Solver()
             self._solver.set("timeout", self.feas_timeout_ms)
             for c in self.pc:
-                self._solver.add(c)
+                if not _has_quantifier(c):
+                    self._solver.add(c)
         return self._solver
 
     def assume(self, f):
@@ -371,7 +372,9 @@ class Ctx:
         if z3.is_false(f):
             raise PathInfeasible()
         self.pc.append(f)
-        if self._solver is not None:
+        # feasibility pruning uses only the quantifier-free part of the path condition (an
+        # over-approximation: extra paths are sound, their obligations carry the full condition)
+        if self._solver is not None and not _has_quantifier(f):
             self._solver.add(f)
 
     def feasible(self, extra=None):
@@ -427,6 +430,8 @@ class Ctx:
     def oblige(self, name, goal, **meta):
         if isinstance(goal, bool):
             goal = z3.BoolVal(goal)
+        if self.notes:
+            meta = dict(meta, path="; ".join(self.notes))
         self.obligations.append(Obligation(name, self.pc, goal, meta))
 
     # -- heap of symbolic references
@@ -448,6 +453,19 @@ class Ctx:
 # ----------------------------------------------------------------------------------------------
 # helpers
 # ----------------------------------------------------------------------------------------------
+def _has_quantifier(f):
+    todo, seen = [f], set()
+    while todo:
+        e = todo.pop()
+        if e.get_id() in seen:
+            continue
+        seen.add(e.get_id())
+        if z3.is_quantifier(e):
+            return True
+        todo.extend(e.children())
+    return False
+
+
 def is_sym(v):
     return z3.is_expr(v)
 
@@ -534,7 +552,9 @@ class LoopSpec:
     havoc(interp, env): optional custom havoc of further state
     """
 
-    def __init__(self, invariant, modifies=(), heap_modifies=(), havoc=None, fresh_local=None):
+    def __init__(self, invariant, modifies=(), heap_modifies=(), havoc=None, fresh_local=None, at_iteration=None):
+        self.at_iteration = at_iteration  # hook(interp, env, k): e.g. unfold ghost definitions at k
+        self.assume_invariant = None  # optional: hypothesis form of the invariant (finite instantiation)
         self.invariant = invariant
         self.modifies = tuple(modifies)
         self.heap_modifies = tuple(heap_modifies)
@@ -648,7 +668,7 @@ class Interp:
         if isinstance(f, BoundMethod):
             return self.call(f.func, [f.self_obj] + list(args), kwargs)
         if isinstance(f, FuncValue):
-            if f.qualname in self.cfg.summaries and f.qualname not in self.call_stack[:1]:
+            if f.qualname in self.cfg.summaries:
                 self.summarised.add(f.qualname)
                 return self.cfg.summaries[f.qualname](self, list(args), dict(kwargs))
             return self.call_func(f, args, kwargs)
@@ -1029,6 +1049,12 @@ class Interp:
     def x_Pass(self, node, frame):
         pass
 
+    def x_Continue(self, node, frame):
+        raise _Continue()
+
+    def x_Break(self, node, frame):
+        raise _Break()
+
     def x_Global(self, node, frame):
         frame.env.globals_decl.update(node.names)
 
@@ -1253,8 +1279,11 @@ class Interp:
         if which == 0:
             # (2) arbitrary iteration k: assume Inv(k), 0<=k<n; run body; assert Inv(k+1)
             ctx.assume(z3.And(k >= 0, k < to_z3(n)))
-            for nm, f in spec.invariant(self, frame.env, k):
+            for nm, f in (spec.assume_invariant or spec.invariant)(self, frame.env, k):
                 ctx.assume(f)
+            ctx.ghost["cur_k"] = k
+            if spec.at_iteration:
+                spec.at_iteration(self, frame.env, k)
             x = self.getitem(seq, k)
             self.assign(node.target, (k, x) if enum else x, frame)
             try:
@@ -1268,7 +1297,8 @@ class Interp:
             raise PathCut()
         # (3) after the loop: Inv(n)
         kk = to_z3(n)
-        for nm, f in spec.invariant(self, frame.env, kk):
+        ctx.ghost["cur_k"] = None
+        for nm, f in (spec.assume_invariant or spec.invariant)(self, frame.env, kk):
             ctx.assume(f)
         if node.orelse:
             self.exec_block(node.orelse, frame)
@@ -1418,6 +1448,16 @@ class Interp:
 
     def e_IfExp(self, node, frame):
         t = self.eval(node.test, frame)
+        if getattr(self, "pure_mode", 0) and z3.is_expr(t) and z3.is_bool(t) and not z3.is_true(z3.simplify(t)) and not z3.is_false(z3.simplify(t)):
+            # inside a side-effect-free symbolic comprehension: merge instead of forking
+            a = self.eval(node.body, frame)
+            b = self.eval(node.orelse, frame)
+            if isinstance(a, SRef) and isinstance(b, SRef) and a.cls == b.cls:
+                return SRef(a.cls, z3.If(t, a.ref, b.ref))
+            za, zb = to_z3(a), to_z3(b)
+            if za is not None and zb is not None and za.sort() == zb.sort():
+                return z3.If(t, za, zb)
+            raise Unsupported("cannot merge branches of a conditional expression in a symbolic comprehension")
         if self.truth(t):
             return self.eval(node.body, frame)
         return self.eval(node.orelse, frame)
@@ -1483,6 +1523,8 @@ class Interp:
                     return r
         T = type(op)
         if isinstance(a, Opaque) or isinstance(b, Opaque):
+            if isinstance(a, (str, Opaque)) and isinstance(b, (str, Opaque)):
+                return Opaque("message text")  # message strings are dropped by the extraction
             raise Unsupported(f"arithmetic on opaque value {a!r} {b!r}")
         if T is ast.Div:
             return self._div(a, b)
@@ -1765,6 +1807,25 @@ class Interp:
         env = Env(frame.env)
         sub = Frame(frame.module, env, frame.qualname)
         sub.handling = frame.handling
+        if len(node.generators) == 1 and not node.generators[0].ifs:
+            g0 = node.generators[0]
+            it0 = self.eval(g0.iter, sub)
+            if isinstance(it0, SSeq) and z3.is_expr(it0.length) and not z3.is_int_value(z3.simplify(it0.length)):
+                # side-effect-free element expression over a symbolic-length sequence:
+                # r with len r = len s and r[i] = e(s[i])   (DESIGN §2.2)
+                interp = self
+
+                def get(i, it0=it0, g0=g0):
+                    e2 = Env(frame.env)
+                    fr = Frame(frame.module, e2, frame.qualname)
+                    interp.assign(g0.target, it0.get(i), fr)
+                    interp.pure_mode = getattr(interp, "pure_mode", 0) + 1
+                    try:
+                        return elt_fn(fr)
+                    finally:
+                        interp.pure_mode -= 1
+
+                return SSeq(it0.length, get, "list", f"comp({it0.name})")
 
         def rec(gi):
             if gi == len(node.generators):
